@@ -83,6 +83,9 @@ def oracle_gu(ctx, spec, run_engine=False):
     if res is None:
         return None
     prog, comp = res
+    if any(o["cls"] == "Del" for o in spec["ops"]):
+        ctx.fail("gu:accepted-delete", "gaussian_unitary compiled a circuit that deletes a mode into a single transformation", rp)
+        return None
     modes = sorted({m for o in spec["ops"] for m in o["regs"]})
     n = len(modes)
     regs, S, disp, problems = gc.emitted_gu(list(comp.circuit))
@@ -129,6 +132,9 @@ def oracle_passive(ctx, spec, run_engine=False):
     if res is None:
         return None
     prog, comp = res
+    if any(o["cls"] == "Del" for o in spec["ops"]):
+        ctx.fail("passive:accepted-delete", "passive compiled a circuit that deletes a mode into a single transformation", rp)
+        return None
     modes = sorted({m for o in spec["ops"] for m in o["regs"]})
     cmds = list(comp.circuit)
     if len(cmds) != 1 or cmds[0].op.__class__.__name__ != "PassiveChannel":
@@ -374,7 +380,10 @@ def rand_float_op(rng, ms, which):
 
 def rand_float_circuit(rng, which, big=False):
     n, ms = gc.rand_modes(rng, big)
-    return dict(n=n, ops=[rand_float_op(rng, ms, which) for _ in range(rng.randint(1, 10))])
+    ops = [rand_float_op(rng, ms, which) for _ in range(rng.randint(1, 10))]
+    if rng.random() < 0.05:     # deleting a mode cannot be expressed by one transformation: must be rejected
+        ops.append(dict(cls="Del", regs=[rng.choice(ms)], pars=[], dagger=False))
+    return dict(n=n, ops=ops)
 
 
 # ---------------------------------------------------------------------------------------------------------------
@@ -415,6 +424,10 @@ def rand_hybrid(rng, small=False):
         else:
             op = dict(cls="Kgate", regs=[rng.choice(free)], pars=[0.1], dagger=False)
         ops.append(op)
+    if not small and rng.random() < 0.1:
+        free = [m for m in ms if m not in measured]
+        if free:
+            ops.append(dict(cls="Del", regs=[rng.choice(free)], pars=[], dagger=False))
     return dict(n=n, ops=ops)
 
 
